@@ -14,7 +14,9 @@
 (*           total_episodes it was given, lens/rets = lengths and returns of  *)
 (*           the episodes of the environment, done/executed/reported = what   *)
 (*           the learner did, obs = scheduler variables at call entry, rb/mix *)
-(*           = task the replay buffer / the task selectables were told        *)
+(*           = task the replay buffer / the task selectables were told, ls =  *)
+(*           the learning_starts argument (train_uts: exploring_starts; the   *)
+(*           other two pass their learning_starts through unchanged)          *)
 (*  select / feedback / rejected   calls on the task selector (amt)           *)
 (*  end      the scheduler returned: obs = returned values                    *)
 EXTENDS SchedulerOps, TLC, Json, IOUtils
@@ -51,12 +53,14 @@ UtsM == IF m.stage = "init" THEN UtsInit ELSE m.u
 UtsStep ==
   LET e == Ev  u == UtsM IN
   IF e.k = "call" THEN
-    LET u2 == UtsAfter(u, Seen(e))
+    LET u2 == UtsAfter(u, e.g, Seen(e), e.ls, Cfg.expl)
         cl == [guard    |-> u.gs < Cfg.T,
                counter  |-> e.g = u.gs,
                limit    |-> e.T = Cfg.T,
                episodes |-> e.E = Cfg.E,
                task     |-> e.task \in Tasks,
+               warmup   |-> e.ls = UtsWarmup(Cfg.expl, u.gs),
+               noearly  |-> ~u2.early,
                budget   |-> u2.exec <= Cfg.T,
                exact    |-> u2.gs = u2.exec]
     IN /\ m' = [stage |-> "uts", u |-> u2]
@@ -96,7 +100,8 @@ AmtStep ==
          LET cl == [phase |-> x.phase = "selected", task |-> e.task = x.cur,
                     counter |-> e.g = x.a.gs, limit |-> e.T = Cfg.T, episodes |-> e.E = Cfg.E,
                     ts |-> e.obs.ts = x.a.ts, gs |-> e.obs.gs = x.a.gs,
-                    informed |-> e.rb = e.task /\ e.mix = e.task]
+                    informed |-> e.rb = e.task /\ e.mix = e.task,
+                    warmup |-> e.ls = Cfg.ls]
          IN /\ m' = [x EXCEPT !.phase = "trained", !.run = Seen(e), !.rets = e.rets]
             /\ Out([tr |-> tr, i |-> i, k |-> "call", ok |-> All(cl), cl |-> cl,
                     learner |-> LearnerOK(e), contract |-> ContractOK(e), exp |-> AmtView(x)])
@@ -144,7 +149,8 @@ SmtStep ==
                             episodes |-> e.E = C.E, partition |-> SmtPartition(C, x),
                             pertask |-> x.ts = x.exec, total |-> ISum(x.ts) = x.gs /\ x.gs < StageLimit(C, x),
                             poolsize |-> Cardinality(x.upd) <= C.K,
-                            informed |-> e.rb = e.task /\ e.mix = e.task]
+                            informed |-> e.rb = e.task /\ e.mix = e.task,
+                            warmup |-> e.ls = C.ls]
                  IN /\ m' = SmtAfterCall(C, x, e.task, Seen(e), e.rets)
                     /\ Out([tr |-> tr, i |-> i, k |-> "call", ok |-> All(cl), cl |-> cl,
                             learner |-> LearnerOK(e), contract |-> ContractOK(e), exp |-> SmtView(x)])
